@@ -191,6 +191,16 @@ func (w *World) enabled() []Event {
 					want = h[len(h)-1]
 				}
 			}
+			if want == "late" {
+				// a check that takes 50 ms and then reports healthy
+				if op.NotBefore == 0 {
+					op.NotBefore = op.TIssue + 50*ms
+				}
+				if op.NotBefore <= now {
+					def = append(def, mk("ok"))
+				}
+				continue
+			}
 			def = append(def, mk(want))
 			continue
 		}
@@ -617,6 +627,9 @@ func (w *World) snapshot() []ISnap {
 		for _, hw := range w.watchers {
 			if hw.Inst == id && !hw.stopped && !hw.closed {
 				s.WQ, s.WDeliv = len(hw.queue), hw.nDeliv
+			}
+			if hw.Inst == id && !hw.stopped {
+				s.WOpen++
 			}
 		}
 		for _, p := range w.pending {
